@@ -383,8 +383,21 @@ fn table_layout(rep: &mut Report, r: &mut Rng) {
 
 /// the pointer-identity part of `table_layout` on a stride of slots (interpreter-friendly): iter_mut uses raw ptr.add
 fn table_layout_light(rep: &mut Report, r: &mut Rng) {
+    if core::mem::size_of::<PageTable>() != 4096 || core::mem::align_of::<PageTable>() != 4096 || core::mem::size_of::<PageTableEntry>() != 8 {
+        rep.violation("PageTable|size-or-alignment", J::Null);
+        return;
+    }
     let mut t = Box::new(PageTable::new());
     let base = &*t as *const PageTable as usize;
+    if t.iter().count() != 512 || t.iter_mut().count() != 512 {
+        rep.violation("PageTable::iter|not-512-items", J::Null);
+    }
+    for bad in [512usize, 513, 1023, 1024, 65536 + 7, usize::MAX] {
+        rep.eval();
+        if crate::util::catch(|| &t[bad] as *const PageTableEntry as usize).is_ok() {
+            rep.violation("PageTable|index-outside-0..512-not-refused", J::obj(vec![("profile", J::s(crate::util::profile_name())), ("index", J::hex(bad as u64))]));
+        }
+    }
     for i in (0..512usize).step_by(37).chain([511usize]) {
         rep.evals(4);
         let p1 = &t[i] as *const PageTableEntry as usize;
